@@ -77,9 +77,9 @@ func VerifC10Route() {
 	_ = err
 	for i, c := range clients {
 		if i == idx && i != hosted {
-			verifrt.Assert(len(c.calls) == 1, "owner-replica-called-exactly-once")
+			verifrt.Assert(len(c.getCalls()) == 1, "owner-replica-called-exactly-once")
 		} else {
-			verifrt.Assert(len(c.calls) == 0, "no-other-partition-contacted")
+			verifrt.Assert(len(c.getCalls()) == 0, "no-other-partition-contacted")
 		}
 	}
 	verifrt.Reach("routed")
@@ -162,9 +162,9 @@ func VerifC10Big() {
 	}
 	for i, c := range clients {
 		if i == idx {
-			verifrt.Assert(len(c.calls) == 1, "owner-replica-called-exactly-once")
+			verifrt.Assert(len(c.getCalls()) == 1, "owner-replica-called-exactly-once")
 		} else {
-			verifrt.Assert(len(c.calls) == 0, "no-other-partition-contacted")
+			verifrt.Assert(len(c.getCalls()) == 0, "no-other-partition-contacted")
 		}
 	}
 	verifrt.Reach("big-routed")
